@@ -1,6 +1,7 @@
 package treemap
 
 import (
+	"github.com/emirpasic/gods/v2/containers"
 	rbt "github.com/emirpasic/gods/v2/trees/redblacktree"
 	vl "github.com/emirpasic/gods/v2/zzvlib"
 	v "github.com/emirpasic/gods/v2/zzvsup"
@@ -87,4 +88,20 @@ func VHMapStep() {
 	}
 	v.Assert(m.Empty() == (m.Size() == 0), "C15:empty")
 	v.Assert(m.Size() >= 0, "C15:size-nonneg")
+}
+
+// VGSmall builds a TreeMap by the library's own Put of n <= N arbitrary pairs.
+func VGSmall() *Map[int, int] {
+	n := v.Split(v.IntIn("n", 0, v.CfgOr("N", 3)), 0, 16)
+	m := NewWith[int, int](vl.Cmp)
+	for i := 0; i < n; i++ {
+		m.Put(v.Int("k"), v.Int("x"))
+	}
+	return m
+}
+
+func VHIter() {
+	m := VGSmall()
+	keys, vals := m.Keys(), m.Values()
+	containers.VKeyIterStep(func() containers.IteratorWithKey[int, int] { return m.Iterator() }, keys, vals, m)
 }
